@@ -47,7 +47,7 @@ pub fn spec(prop: &str) -> Option<PropSpec> {
             &["probe.pair_compared", "probe.converge", "probe.child_delivered_before_parent", "probe.block_before_pack", "probe.reopen_compared", "probe.conflict_at_sync", "probe.array_in_conflict_at_sync"]),
         "C02" => s("C02", "exploration", 60000, 1200000, &["probe.block_held_back"], &["probe.ref_compared"],
             "histories in which single block/pack files are delivered one at a time in seeded (biased) orders with a refresh after deliveries; in a quarter of the runs (thorough: all) the newest 4 (thorough: 5) files of the richest store are additionally delivered in ALL k! orders to a replica holding the rest, refresh and comparison after every file; non-trivial = at least one block was observed held back at a sync point; distinct = distinct op/fault sequence hash",
-            &["probe.block_held_back", "probe.held_back_depth_ge_2", "probe.child_delivered_before_parent", "probe.block_before_pack", "probe.deliver_duplicate", "enum.c02_permutations", "enum.c02_prefixes", "probe.refresh_after_time_travel", "fault.walk_torn_arrival", "fault.walk_restore"]),
+            &["probe.block_held_back", "probe.held_back_depth_ge_2", "probe.child_delivered_before_parent", "probe.block_before_pack", "probe.deliver_duplicate", "enum.c02_permutations", "enum.c02_prefixes", "probe.refresh_after_time_travel", "probe.commit_in_the_past", "fault.walk_torn_arrival", "fault.walk_restore"]),
         "C03" => s("C03", "exploration", 100000, 1500000, &["probe.reopen_compared"], &["probe.commit_ok"],
             "histories with nasty JSON content and 1..n staged operations between commits; after every successful commit a second replica is opened on the same storage and compared; non-trivial = at least one commit was compared with a fresh open; distinct = distinct op sequence hash",
             &["probe.reopen_compared", "probe.objop", "probe.objop_twin_content", "probe.commit_failed"]),
@@ -68,14 +68,14 @@ pub fn spec(prop: &str) -> Option<PropSpec> {
             &["probe.block_read_back", "probe.checkpoint_multihead", "probe.block_index_ge_10", "probe.graph_checked_in_time_travel", "probe.reload_until_redundant_anchors", "probe.reload_until_foreign_heads"]),
         "C14" => s("C14", "exploration", 14000, 300000, &["probe.reload_until"], &[],
             "reload_until / new_until for heads the replica had before (sampled inside the run; at the end of each history every replica travels to each of its checkpoints and back — every head set the replica ever had when there are at most 10, else 10 of them; then a walk of up to 8 consecutive travels without reload in between, through head sets of all replicas that are complete in this replica's storage, a quarter of them with a redundant ancestor added to the request), compared with the recorded checkpoint and the reference restricted to ancestors; non-trivial = at least one time travel executed; distinct = distinct op sequence hash",
-            &["probe.reload_until", "probe.reload_until_multihead", "probe.history_rev_checked", "enum.c14_checkpoint_forks", "enum.c14_multihead_forks", "enum.c14_walk_steps", "probe.reload_until_foreign_heads", "probe.reload_until_redundant_anchors", "probe.reload_until_consecutive"]),
+            &["probe.reload_until", "probe.reload_until_multihead", "probe.history_rev_checked", "enum.c14_checkpoint_forks", "enum.c14_multihead_forks", "enum.c14_walk_steps", "probe.reload_until_foreign_heads", "probe.reload_until_redundant_anchors", "probe.reload_until_consecutive", "probe.commit_in_the_past", "probe.reload_until_unknown_anchor"]),
         "C15" => s("C15", "exploration", 100000, 1500000, &["probe.unstage_compared", "probe.stage_roundtrip", "probe.refresh_with_stage"], &[],
             "staged operations of any mix followed by unstage / export+replay / commit / refused refresh; non-trivial = at least one of those comparisons ran; distinct = distinct op sequence hash",
             &["probe.unstage_compared", "probe.stage_roundtrip", "probe.refresh_with_stage", "probe.objop", "probe.resolve", "probe.commit_failed", "probe.retry_after_failed_commit", "probe.replayed_stage_objects_already_durable"]),
         "C16" => s("C16", "exploration", 60000, 900000, &["probe.array_revision_reconstructed"], &[],
             "chains of successive versions of flattened arrays with commits, snapshots and reopen under drawn cache capacities; non-trivial = stored revisions were reconstructed by the reference and compared with the submitted order; distinct = distinct op sequence hash",
             &["probe.array_revision_reconstructed", "probe.snapshot_staged_something"]),
-        "C19" => s("C19", "exploration", 40000, 900000, &["probe.identifier_checked"], &["probe.order_pair_checked"],
+        "C19" => s("C19", "exploration", 30000, 900000, &["probe.identifier_checked"], &["probe.order_pair_checked"],
             "every revision identifier of every tree at every sync point and after staging ops: print/parse, construction rule, content digest, order axioms; non-trivial = identifiers and pairs were checked; distinct = distinct op sequence hash",
             &["probe.identifier_checked", "probe.identifier_content_checked", "probe.order_triple_checked", "probe.identifier_index_ge_10", "probe.identifier_index_ge_100", "probe.same_edit", "probe.same_edit_two_heads"]),
         "C08" => s("C08", "exploration", 100000, 1500000, &["probe.commit_with_array_conflict", "probe.commit_with_object_conflict", "probe.resolve", "probe.snapshot"], &[],
